@@ -6,7 +6,7 @@ for pf in $1/refac_*.patch; do
   s=$(mktemp -d /tmp/refac-run.XXXX); rsync -a --exclude .git /repo/ $s/
   if ! (cd $s && patch -p1 -s < $pf); then echo "REFAC $(basename $pf): PATCH DOES NOT APPLY"; rm -rf $s; continue; fi
   if ! (cd $s && go build ./... >/dev/null 2>&1 && cd libs && go build ./... >/dev/null 2>&1); then echo "REFAC $(basename $pf): DOES NOT COMPILE"; rm -rf $s; continue; fi
-  out=$(for i in $(seq -w 1 20); do echo C$i; done | xargs -P 6 -I{} sh -c "bin/govc check {} --repo $s --evidence-dir /tmp/refac-ev-{} 2>&1 | grep '^VIOLATION\|^  obligation' | cut -c1-300")
+  out=$(for i in $(seq -w 1 20); do echo C$i; done | xargs -P 8 -I{} sh -c "bin/govc check {} --repo $s --evidence-dir /tmp/refac-ev-{} 2>&1 | grep '^VIOLATION\|^  obligation' | cut -c1-300")
   rm -rf /tmp/refac-ev-C*
   if [ -z "$out" ]; then echo "REFAC $(basename $pf): all 20 green"; else echo "REFAC $(basename $pf): ALARM"; echo "$out" | grep obligation | head -6; fi
   rm -rf $s
